@@ -1,8 +1,7 @@
 #!/bin/sh
-# rerun_seeded.sh [names...] : run every seeded change (or the named ones) against the check of its property in a scratch worktree
+# rerun_seeded.sh [names...] : run every seeded change (or the named ones) against the check of its property in scratch worktrees,
+# four at a time, replacing the results recorded in each meta.json (log: /tmp/rerun_seeded.log)
 cd /verif
 names="$@"; [ -z "$names" ] && names=$(ls seeded | grep -v README)
-for n in $names; do
-  python3 tools/run_wt.py seeded/$n 2>&1 | grep -v "^WARNING" | cut -c1-300 >> /tmp/rerun_seeded.log
-done
+echo $names | tr ' ' '\n' | xargs -P 4 -I{} sh -c 'python3 tools/run_wt.py --fresh seeded/{} 2>&1 | grep -v "^WARNING" | cut -c1-300 >> /tmp/rerun_seeded.log'
 echo done >> /tmp/rerun_seeded.log
